@@ -34,19 +34,21 @@ def _canon_graph(g):
     return {"n": len(names), "names": names, "edges": [[a, b, g.graph[V[a]].get(V[b], 0)] for a in range(len(V)) for b in range(a + 1, len(V)) if g.graph[V[a]].get(V[b], 0)]}
 def solids_data():
     import chipfiring.CFPlatonicSolids as P
-    return {name: _canon_graph(getattr(P, name)()) for name in ("tetrahedron", "cube", "octahedron", "dodecahedron", "icosahedron")}, P.platonic_solid_gonality_bounds()
+    import chipfiring.CFCombinatorics as C
+    alpha = {"octahedron": [C.octahedron_independence_number(), C.independence_number(P.octahedron())], "icosahedron": [C.icosahedron_independence_number(), C.independence_number(P.icosahedron())]}
+    return {name: _canon_graph(getattr(P, name)()) for name in ("tetrahedron", "cube", "octahedron", "dodecahedron", "icosahedron")}, P.platonic_solid_gonality_bounds(), alpha
 def impl(c):
     import chipfiring.CFPlatonicSolids as P
     from chipfiring.CFCombinatorics import gonality_theoretical_bounds, independence_number, complete_multipartite_gonality
     k = c["kind"]
     if k == "solids":
-        gs, table = solids_data()
+        gs, table, alpha = solids_data()
         # history: the caller edits a generated solid in place (thickens an edge), then generates the solid again - it must be the published solid again
         again = {}
         for name in gs:
             g1 = getattr(P, name)(); vs = sorted(v.name for v in g1.vertices); nb = sorted(w.name for w in g1.graph[next(v for v in g1.vertices if v.name == vs[0])])
             g1.add_edge(vs[0], nb[0], 2); again[name] = _canon_graph(getattr(P, name)())
-        return {"graphs": gs, "table": table, "again": again, "table_again": P.platonic_solid_gonality_bounds()}
+        return {"graphs": gs, "table": table, "again": again, "table_again": P.platonic_solid_gonality_bounds(), "alpha": alpha}
     if k == "Kn":
         G1 = P.complete_graph(c["n"]); first = _canon_graph(G1)
         if c["n"] >= 2:
@@ -67,6 +69,7 @@ def model_lines(c, r):
         ls = []
         for name in ("tetrahedron", "octahedron", "cube"):
             G = r["ok"]["graphs"][name]; ls.append(["gon"] + common.enc_graph(G) + [G["n"], 0])
+        for name in ("octahedron", "icosahedron"): ls.append(["indep"] + common.enc_graph(r["ok"]["graphs"][name]))
         return ls
     if k == "Kn":
         G = r["ok"]["G"] if "ok" in r else common.mk_graph(c["n"], common.fam_complete(c["n"]), None, 0)
@@ -85,6 +88,8 @@ def judge(c, r, mo):
             if G["n"] != nv or len(G["edges"]) != ne or any(kk != 1 for _, _, kk in G["edges"]) or any(sum(row) != reg for row in M) or not common.is_connected(G):
                 out.append({"what": "generated %s is not the %d-vertex %d-edge %d-regular simple graph" % (name, nv, ne, reg)})
             if t["vertices"] != nv or t["edges"] != ne: out.append({"what": "table counts for %s are %s/%s" % (name, t["vertices"], t["edges"])})
+        for name, line in zip(("octahedron", "icosahedron"), mo[3:5]):
+            if "alpha" in o and o["alpha"][name] != [int(line[0])] * 2: out.append({"what": "published / computed independence number of the %s is %s, its largest independent set has %s vertices" % (name, o["alpha"][name], line[0])})
         if o.get("again", o["graphs"]) != o["graphs"]: out.append({"what": "a solid generated again after the caller edited the first copy in place differs from the published solid: %s" % [nm for nm in o["graphs"] if o["again"][nm] != o["graphs"][nm]]})
         if o.get("table_again", o["table"]) != o["table"]: out.append({"what": "the published table changed after a generated solid was edited"})
         for name, line in zip(("tetrahedron", "octahedron", "cube"), mo):
@@ -137,13 +142,14 @@ def pre_proof(log):
     code = "import json,sys,io,contextlib\nsys.path.insert(0,'%s')\nfrom props import c19\nwith contextlib.redirect_stdout(io.StringIO()): d=c19.solids_data()\nprint(json.dumps(d))" % os.path.join(common.VERIF, "harness")
     p = subprocess.run([common.PY, "-c", code], env=env, capture_output=True, text=True, timeout=300)
     if p.returncode != 0: log.append("Generated.v: dump failed: " + p.stderr[-500:]); return
-    gs, table = json.loads(p.stdout.strip().split("\n")[-1])
+    gs, table, alpha = json.loads(p.stdout.strip().split("\n")[-1])
     def mat(G): return "[" + ";".join("[" + ";".join(str(x) for x in row) + "]" for row in common.matrix(G)) + "]"
     lines = ["(* GENERATED on every run by harness/props/c19.py from the live generators in /repo/chipfiring/CFPlatonicSolids.py. Do not edit. *)",
              "From Coq Require Import ZArith List.", "Import ListNotations.", "Open Scope Z_scope.", "Definition gmatrix := list (list Z)."]
     for name, G in gs.items(): lines.append("Definition gen_%s : gmatrix := %s." % (name, mat(G)))
     for name, t in table.items():
         lines.append("Definition table_%s : Z * Z * Z * Z * Z := (%d, %d, %d, %d, %d)." % (name, t.get("exact", -1), t["lower_bound"], t["upper_bound"], t["vertices"], t["edges"]))
+    for name, (pub, comp) in alpha.items(): lines.append("Definition alpha_%s : nat * nat := (%d, %d)%%nat.   (* published constant, independence_number() of the generated graph *)" % (name, pub, comp))
     txt = "\n".join(lines) + "\n"; path = os.path.join(common.COQ, "theories", "Generated.v")
     if not os.path.exists(path) or open(path).read() != txt: open(path, "w").write(txt)
 def nontrivial(cases): return len({str(c) for c in cases})
